@@ -477,6 +477,10 @@ def run(tier, seed):
             mk = c["meas"][idx]["k"] if idx < len(c["meas"]) else "?"
             if idx < len(c["meas"]) and any(not any(w_) and co != 1.0 for co, w_ in c["meas"][idx].get("terms", [])):
                 mk += ":identity-term-with-coefficient"
+            if idx < len(c["meas"]) and c["meas"][idx]["k"] in ("herm", "proj") and any(
+                    m2["k"] in ("expval", "var") and any(w_[x - 1] in (1, 2) for _, w_ in m2["terms"] for x in c["meas"][idx]["w"])
+                    or m2["k"] == "had" and m2["w"][0] in c["meas"][idx]["w"] for m2 in c["meas"]):
+                mk += ":shares-wire-with-rotated-pauli"
             if c["tr"][0] == "sign":
                 from .. import bridge
                 mat = sum(co * bridge.pauli_word(list(w_)) for co, w_ in c["meas"][0]["terms"])
